@@ -32,7 +32,8 @@ let atom = function Atom a -> a | List _ -> failwith "expected atom"
 let atom_opt = function Atom a -> Some a | List _ -> None
 let head = function Atom a -> a | List (h :: _) -> atom h | List [] -> failwith "empty list"
 let args = function Atom _ -> [] | List (_ :: r) -> r | List [] -> []
-let int_of s = int_of_string (atom s)
+(* big / big1 / mid: usize::MAX, usize::MAX - 1, 2^33 in the crate; the model runs them as counts that no case's script reaches *)
+let int_of s = match atom s with "big" -> 5000 | "big1" -> 4999 | "mid" -> 4000 | a -> int_of_string a
 
 (* numbers: built and read back constructor by constructor, no Extract Constant *)
 let rec pos_of_int n = if n = 1 then XH else if n land 1 = 0 then XO (pos_of_int (n / 2)) else XI (pos_of_int (n / 2))
